@@ -122,6 +122,11 @@ def rand_which(rnd, n, max_ids=3, allow_bad=True):
         m = rnd.randint(1, 3)
         one = rnd.choice([[["s", None, None, None]], [["s", None, None, -1]], [["i", j] for j in range(n)]])
         return [x for _ in range(m) for x in one]
+    if style < 0.44 and n >= 2:  # every position covered, unequal multiplicities, length a multiple of n
+        idx = list(range(n)) + [rnd.randrange(n) for _ in range(n * rnd.randint(1, 2))]
+        if rnd.random() < 0.5:
+            rnd.shuffle(idx)
+        return [["i", j if rnd.random() < 0.7 else j - n] for j in idx]
     if style < 0.47 and n >= 3:  # the middle
         return [["s", 1, n - 1, None]]
     for _ in range(rnd.randint(0, max_ids)):
